@@ -1,23 +1,38 @@
-# C03  ray tracing does not depend on the subgrid layout -- layers 1 and 3 of DESIGN.md:
+# C03  ray tracing does not depend on the subgrid layout -- all four layers of DESIGN.md; proofs in coq/Cxx/C03_*.v, tie here:
+#   layers 2 and 4: packets traced through the real creator vs. the extracted model of Cxx/C03_TraceDefs.v + oracle (run_trace);
 #   layer 1: the 27-direction tables of src/TravelDirections.hpp / src/DensitySubGrid.hpp, REGENERATED from the real
 #            functions into coq/Cxx/C03_Gen.v on every run and re-proved against the spec of coq/Cxx/C03_Defs.v;
 #   layer 3: neighbour wiring and copy bookkeeping of src/DensitySubGridCreator.hpp: Z-model proved for all layouts,
 #            run against the real creator on every run (all small layouts + random larger ones).
-import os, re, json, math, itertools, tempfile, shutil
+import os, re, json, math, time, itertools, tempfile, shutil
 from fractions import Fraction as Fr
 import vf
 
 LEVEL = "proof"
-CLAIM = dict(cat="proof", design="§3 C03 (layers 1 and 3)",
-   text="Coq theorems (no axioms): (layer 1) the 27-direction tables REGENERATED from src/TravelDirections.hpp / DensitySubGrid.hpp on every run satisfy: output_to_input_direction is an involution that negates the offset, "
+CLAIM = dict(cat="proof", design="§3 C03 (layers 1-4)",
+   text="Coq theorems. (layer 1, no axioms) the 27-direction tables REGENERATED from src/TravelDirections.hpp / DensitySubGrid.hpp on every run satisfy: output_to_input_direction is an involution that negates the offset, "
         "exit-mask decoding inverts the offset encoding and rejects exactly the 37 inconsistent masks, output/input compatibility are exactly the sign conditions and input compatibility = output compatibility of the opposite "
-        "direction, entry class agrees with the offset, what leaves through d enters through the opposite one; (layer 3) for ALL layouts nx,ny,nz>=1, all 8 periodicities and all copy-level vectors a Z-model of the creator's "
+        "direction, entry class agrees with the offset, what leaves through d enters through the opposite one; (layer 3, no axioms) for ALL layouts nx,ny,nz>=1, all 8 periodicities and all copy-level vectors a Z-model of the creator's "
         "wiring gives the wrapped lattice neighbour or OUTSIDE exactly at the box end, wiring is mutual (incl. axes with 1 or 2 subgrids), every neighbour of a duplicate is a duplicate/original of the true neighbour, "
-        "folding adds every copy's contribution to its original exactly once and nothing else, pushing reaches every copy once. Tie: tables by regeneration; wiring by differential execution of the real "
-        "DensitySubGridCreator on all layouts <=3^3 x 8 periodicities + random larger ones with random copy levels.",
-   note="Partial w.r.t. the full property: the hand-over lemma over the reals and the layout independence of the traced estimators/absorption position (layers 2 and 4 of the design) are not proved here "
-        "(C02 proves the single-block march; split-vs-undivided equality is not a theorem yet). Trusted: dumper + line->Coq formatter, extraction, OCaml driver. Assumes < 2^32-1 subgrids, copy levels <= 30.",
-   technique="Coq proof on tables regenerated from the code + proof for all layouts of a wiring model + differential correspondence")
+        "folding adds every copy's contribution to its original exactly once and nothing else, pushing reaches every copy once; a trace through copies makes the same interact calls as the trace through the originals. "
+        "(layers 2 and 4, over R, on a literal model of the task loop get_subgrid -> interact -> get_neighbour -> output_to_input_direction around C02's model of interact, subgrid boxes as DensitySubGridCreator computes them) "
+        "HAND-OVER LEMMA for every two consecutive interact calls of every trace: same packet position and remaining optical depth (> 0), neighbour = lattice neighbour in the exit offset (periodic wrap = change of anchor), "
+        "start position + new anchor = exit position minus the wrapped box periods, start cell contains the point and is the adjacent cell across the crossed plane / the same cell on axes not crossed, with the ray continuing "
+        "inside it - or the explicitly characterised tie (axis not crossed, negative direction, point on a cell wall: truncation picks the cell above, one zero-length iteration); C02's premises are re-established by every "
+        "hand-over. LAYOUT INDEPENDENCE, full strength (no genericity condition: zero direction components, rays in cell-face planes, through edges/corners, starts on walls included): every trace is a chunking of ONE "
+        "deterministic reference march on the undivided, periodically unfolded cell lattice, hence for any two layouts of the same global grid (incl. the undivided 1x1x1 grid and 1 or 2 subgrids on a periodic axis) the "
+        "absorbed/escaped decision, the end position, the remaining optical depth and the length credited to every global cell (hence, by C02 estimators_exact, every estimator) are equal, and the trace ends in one layout "
+        "iff it ends in the other. Tie: tables by regeneration; wiring by differential execution of the real DensitySubGridCreator (all layouts <=3^3 x 8 periodicities + random larger, random copy levels); trace: the "
+        "extracted binary64 instance of the SAME trace definitions is compared bit for bit with the real get_subgrid/interact/get_neighbour/output_to_input_direction on real creator-built subgrids (incl. periodic boxes, copies) "
+        "for every interact call (position/depth before and after, start position and start index, directions, all estimators); an independent split-vs-undivided + hand-over oracle on the real outputs turns any break into a concrete failing ray.",
+   note="Nothing is left partial at the theorem level (no _partial theorem). Premises of the R-theorems, all inherited and none a genericity condition: source position in the half-open box A <= x < A+S (on the upper face "
+        "get_subgrid indexes past the last subgrid in the real code), a non-zero direction component with cell size/|d| < DBL_MAX (C02), densities/fractions/cross sections >= 0, target > 0; traces are compared when they end "
+        "within their fuel (C03_termination_transfer: ending is layout independent). The theorems are about the real-number instance; binary64 execution is tied by bit-exact correspondence of the same definitions and the "
+        "round-off level agreement of layouts (1e-12 relative) is evidence from the oracle, which skips only binary64 ties (a direction component exactly 0 with the start within 8 ulp of a cell-face plane, where floor of a "
+        "non-representable plane coordinate is decided by round-off per layout; the R-theorem has no such exception). Trusted: Coq kernel + the standard real-number axioms (ClassicalDedekindReals.sig_forall_dec, "
+        "functional_extensionality_dep; layers 1 and 3 use none), table dumper + line->Coq formatter, extraction (ExtrOCamlFloats) and the OCaml drivers, the harness' replica of the task loop for ONE packet (buffers/tasks "
+        "are C01's concern). Assumes < 2^32-1 subgrids, copy levels <= 30.",
+   technique="Coq proof on tables regenerated from the code + proof for all layouts of a wiring model + stuttering simulation of every layout's trace against a deterministic reference march (reals) + bit-exact binary64 correspondence + split-vs-undivided oracle")
 HARN = os.path.join(vf.VERIF, "harness/c03")
 GEN = os.path.join(vf.COQ, "Cxx", "C03_Gen.v")
 MPI = ["-Wl,--no-as-needed", "-lmpi_cxx", "-lmpi"]       # DensitySubGrid.hpp pulls in the MPI C++ bindings
@@ -423,7 +438,1179 @@ def extract_model(d):
     return rc == 0, log + out
 
 
-#@@TRACE_SECTION@@
+# ----------------------------------------------------------------------------------------------------------------
+# layers 2 and 4: single packets traced through the REAL DensitySubGridCreator/DensitySubGrid exactly as the task loop of
+# PhotonTraversalTaskContext does (harness/c03/trace_harness.cpp) vs. the extracted binary64 model of Cxx/C03_TraceDefs.v
+# (ocaml/c03t_driver.ml), plus an oracle for the PROPERTY on the real outputs: the same ray through layout L and through the
+# undivided grid 1x1x1 ends the same way, credits the same length to every global cell, ends at the same place with the same
+# optical depth left; and every hand-over inside the split run is consistent (S lines).
+TH = lambda x: "%016x" % vf.dbl_bits(x)
+TD = lambda s: vf.bits_dbl(int(s, 16))
+T_HUGE = 1e300
+T_EPS = 2.0 ** -52
+T_FLAGS = MPI + ["-ffp-contract=off"]
+T_MAXCALLS = 1200
+T_FUELSHOWN = 64
+R2 = math.sqrt(0.5)
+R3 = 1.0 / math.sqrt(3.0)
+
+
+class TLay:
+    """bookkeeping of one layout of a scene (pure lattice arithmetic, independent of the Coq model)"""
+
+    def __init__(self, sc, m, lv=None):
+        self.sc, self.m, self.lv = sc, tuple(m), (list(lv) if lv else None)
+        N = sc["N"]
+        self.c = tuple(N[k] // m[k] for k in range(3))
+        self.nsub = m[0] * m[1] * m[2]
+        self.orig = list(range(self.nsub))
+        if self.lv:
+            for i, l in enumerate(self.lv):
+                self.orig += [i] * ((1 << l) - 1)
+        self.T = len(self.orig)
+        self.ss = [sc["sides"][k] / m[k] for k in range(3)]          # as the creator computes _subgrid_sides
+
+    def name(self):
+        return "%dx%dx%d" % self.m + ("+copies" if self.lv and any(self.lv) else "")
+
+    def lattice(self, s):
+        my, mz = self.m[1], self.m[2]
+        return (s // (my * mz), (s // mz) % my, s % mz)
+
+    def gcoords(self, sub, cell):
+        """global cell coordinates of local cell `cell` of subgrid `sub` (original or copy); None if invalid"""
+        if not (0 <= sub < self.T):
+            return None
+        c = self.c
+        if not (0 <= cell < c[0] * c[1] * c[2]):
+            return None
+        j = self.lattice(self.orig[sub])
+        l = (cell // (c[1] * c[2]), (cell // c[2]) % c[1], cell % c[2])
+        return tuple(j[k] * c[k] + l[k] for k in range(3))
+
+    def anchor_of(self, j):
+        a = self.sc["anchor"]
+        return [a[k] + j[k] * self.ss[k] for k in range(3)]
+
+    def header(self):
+        sc = self.sc
+        l = ["G " + " ".join(TH(x) for x in sc["anchor"] + sc["sides"]) + " %d %d %d %d %d %d %d %d %d" % (tuple(sc["N"]) + self.m + tuple(sc["per"])),
+             sc["Fline"]]
+        if self.lv:
+            l.append("C " + " ".join(str(x) for x in self.lv))
+        return l
+
+
+def t_gidx(sc, X):
+    N = sc["N"]
+    return (X[0] * N[1] + X[1]) * N[2] + X[2]
+
+
+def t_pkt_line(p):
+    return "P %d " % p["sel"] + " ".join(TH(x) for x in p["pos"] + p["dir"] + [p["tau"], p["w"], p["energy"]] + p["sigma"])
+
+
+def t_locate_ok(sc, m, pos):
+    """would get_subgrid(position) return an original subgrid of layout m? (same binary64 operations)"""
+    for k in range(3):
+        ss = sc["sides"][k] / m[k]
+        j = math.floor((pos[k] - sc["anchor"][k]) / ss)
+        if not (0 <= j < m[k]):
+            return False
+    return True
+
+
+# ---- scenes ------------------------------------------------------------------------------------------------------
+def t_divisor_layouts(N):
+    dv = [[d for d in range(1, N[k] + 1) if N[k] % d == 0] for k in range(3)]
+    return [m for m in itertools.product(*dv)]
+
+
+def t_cells(rng, sc, mode, periodic):
+    """cell contents (n, xH, xHe) in global order; densities scaled so that a cell has optical depth ~ 1/4 at n = x = sigma = 1"""
+    N = sc["N"]
+    nc = N[0] * N[1] * N[2]
+    cs = [sc["sides"][k] / N[k] for k in range(3)]
+    scale = 0.25 / min(cs)
+    cells = []
+    zeros_ok = (not periodic) or all(N[k] >= 6 or not sc["per"][k] for k in range(3))
+    for i in range(nc):
+        if periodic:
+            nd = 0.0 if (zeros_ok and mode in (2, 5) and rng.below(6) == 0) else 10.0 ** (rng.uniform() - 0.5)
+            xH = 0.3 + 0.7 * rng.uniform()
+            xHe = rng.choice([0.0, 1.0, rng.uniform()])
+        else:
+            if mode == 0:
+                nd = 0.0
+            elif mode == 1:
+                nd = 1.0
+            elif mode == 2:
+                nd = 0.0 if rng.below(3) == 0 else 10.0 ** (rng.uniform() * 4 - 2)
+            elif mode == 5:
+                nd = 0.0 if rng.below(6) else 10.0 ** (rng.uniform() * 2 - 1)          # mostly empty
+            else:
+                nd = 10.0 ** (rng.uniform() * 4 - 2)
+            xH = [0.0, 1.0, 1e-6, rng.uniform(), rng.uniform()][rng.below(5)]
+            xHe = [rng.uniform(), 0.0, 1.0, 1e-4, rng.uniform()][rng.below(5)]
+        cells.append((nd * scale, xH, xHe))
+    if periodic:
+        # every line of cells along a periodic axis keeps at least one opaque cell, so that axis-parallel rays terminate
+        for ax in range(3):
+            if not sc["per"][ax]:
+                continue
+            o = [k for k in range(3) if k != ax]
+            for u in range(N[o[0]]):
+                for v in range(N[o[1]]):
+                    X = [0, 0, 0]
+                    X[o[0]], X[o[1]] = u, v
+                    idx = []
+                    for t in range(N[ax]):
+                        X[ax] = t
+                        idx.append(t_gidx(sc, X))
+                    if all(cells[g][0] == 0.0 for g in idx):
+                        g = idx[rng.below(len(idx))]
+                        cells[g] = (scale, cells[g][1], cells[g][2])
+    return cells
+
+
+def t_kmax(sc):
+    sc["kmaxH"] = max(c[0] * c[1] for c in sc["cells"])
+    sc["kmaxHe"] = max(c[0] * c[2] for c in sc["cells"])
+
+
+def t_scene(rng, tag, anchor, sides, N, per, layouts, cmode, copies=None):
+    sc = {"tag": tag, "anchor": [float(x) for x in anchor], "sides": [float(x) for x in sides], "N": tuple(N), "per": tuple(int(x) for x in per)}
+    periodic = any(sc["per"])
+    sc["cells"] = t_cells(rng, sc, cmode, periodic)
+    sc["Fline"] = "F " + " ".join(TH(x) for c in sc["cells"] for x in c)
+    t_kmax(sc)
+    sc["lays"] = [TLay(sc, (1, 1, 1))] + [TLay(sc, m) for m in layouts if tuple(m) != (1, 1, 1)]
+    if copies:
+        for (m, lv) in copies:
+            sc["lays"].append(TLay(sc, m, lv))
+    sc["packets"] = []
+    return sc
+
+
+def t_sigma(rng, nions, periodic):
+    sm = rng.below(6)
+    sig = []
+    for i in range(nions):
+        if sm == 0:
+            v = 1.0 if i == 0 else 0.0
+        elif sm == 1:
+            v = 10.0 ** (rng.uniform() * 2 - 1) if rng.below(4) else 0.0
+        else:
+            v = 10.0 ** (rng.uniform() * 2 - 1)
+        sig.append(v)
+    if sm == 5 and not periodic:
+        sig[0] = 0.0
+    if periodic:
+        sig[0] = 0.5 + 1.5 * rng.uniform()
+    sig[nions - 1] = 1.0            # probe ion: with weight 1 its mean-intensity increment is the path length
+    return sig
+
+
+def t_tau1(rng, sc):
+    """first-pass target: beyond everything in an open box; a few box crossings' worth in a periodic one"""
+    if not any(sc["per"]):
+        return T_HUGE
+    return (0.05 + 2.5 * rng.uniform()) * 0.25 * 0.65 * max(sc["N"]) * (1 if rng.below(4) else 2)
+
+
+def t_mkpkt(rng, sc, nions, pos, d, kind, tau=None, sel=0):
+    periodic = any(sc["per"])
+    return {"sel": sel, "pos": [float(x) for x in pos], "dir": [float(x) for x in d], "tau": t_tau1(rng, sc) if tau is None else tau, "w": 1.0,
+            "energy": rng.choice([3.288e15, 4.0e15, 5.948e15, 1.0e16, 1.0e15]), "sigma": t_sigma(rng, nions, periodic), "kind": kind, "pass": 1}
+
+
+def t_norm(v):
+    n = math.sqrt(sum(x * x for x in v))
+    return [x / n for x in v]
+
+
+def t_plane(sc, k, i):
+    return sc["anchor"][k] + i * (sc["sides"][k] / sc["N"][k])
+
+
+def t_valid(sc, pos):
+    return all(t_locate_ok(sc, L.m, pos) for L in sc["lays"])
+
+
+def t_corpus_packets(rng, sc, nions):
+    """hand-picked rays, instantiated for the scene's geometry"""
+    N = sc["N"]
+    cs = [sc["sides"][k] / N[k] for k in range(3)]
+    mid = [N[k] // 2 for k in range(3)]
+    ctr = [sc["anchor"][k] + (mid[k] + 0.5) * cs[k] for k in range(3)]                 # a cell centre near the middle
+    crn = [t_plane(sc, k, mid[k]) for k in range(3)]                                   # a cell corner near the middle
+    # a plane that is a subgrid face in as many layouts as possible: index = multiple of the largest cells-per-subgrid
+    sf = []
+    for k in range(3):
+        cands = [i for i in range(1, N[k]) if any(i % L.c[k] == 0 and L.m[k] > 1 for L in sc["lays"])]
+        sf.append(t_plane(sc, k, cands[len(cands) // 2]) if cands else crn[k])
+    P = []
+
+    def add(pos, d, kind, tau=None):
+        if t_valid(sc, pos) and any(x != 0.0 for x in d):
+            P.append(t_mkpkt(rng, sc, nions, pos, d, kind, tau))
+    e = [[1.0, 0.0, 0.0], [0.0, 1.0, 0.0], [0.0, 0.0, 1.0]]
+    for k in range(3):
+        for s in (1.0, -1.0):
+            add(ctr, [s * x for x in e[k]], "axis from a cell centre")
+            q = list(ctr)
+            q[k] = crn[k]
+            add(q, [s * x for x in e[k]], "axis, starting on a cell face")            # perpendicular to the face it starts on
+            q = list(ctr)
+            q[k] = sf[k]
+            add(q, [s * x for x in e[k]], "axis, starting on a subgrid face")
+    for sx, sy, sz in itertools.product((1.0, -1.0), repeat=3):
+        add(crn, t_norm([sx * cs[0], sy * cs[1], sz * cs[2]]), "space diagonal of the cells from a cell corner")
+        add(sf, t_norm([sx * cs[0], sy * cs[1], sz * cs[2]]), "space diagonal of the cells from a subgrid corner")
+    for sx, sy, sz in ((1, 1, 1), (-1, 1, -1), (1, -1, -1), (-1, -1, 1)):
+        add(ctr, t_norm([sx * cs[0], sy * cs[1], sz * cs[2]]), "space diagonal of the cells from a cell centre (through corners)")
+        add(ctr, [sx * R3, sy * R3, sz * R3], "space diagonal (1,1,1)/sqrt3 from a cell centre")
+    for k in range(3):
+        o = [a for a in range(3) if a != k]
+        for s0, s1 in ((1, 1), (1, -1), (-1, 1), (-1, -1)):
+            d = [0.0, 0.0, 0.0]
+            d[o[0]], d[o[1]] = s0 * R2, s1 * R2
+            add(ctr, d, "face diagonal from a cell centre")
+            dd = [0.0, 0.0, 0.0]
+            dd[o[0]], dd[o[1]] = s0 * cs[o[0]], s1 * cs[o[1]]
+            q = list(ctr)
+            q[o[0]], q[o[1]] = crn[o[0]], crn[o[1]]
+            add(q, t_norm(dd), "cell face diagonal from a point on a cell edge (through edges)")
+        # along a cell edge / inside a cell face plane (zero direction component on a plane: ties)
+        q = list(crn)
+        q[k] = ctr[k]
+        add(q, e[k], "along a cell edge")
+        q = list(sf)
+        q[k] = ctr[k]
+        add(q, [-x for x in e[k]], "along a subgrid edge")
+        q = list(ctr)
+        q[k] = crn[k]
+        d = [R2, R2, R2]
+        d[k] = 0.0
+        add(q, d, "inside a cell face plane")
+    for eps in (1e-1, 1e-2, 1e-3, 1e-8):
+        for k in range(3):
+            d = [eps, -eps * 0.5, eps]
+            d[k] = 1.0 if k != 1 else -1.0
+            add(ctr, t_norm(d), "grazing %g from a cell centre" % eps)
+        d = [1.0, eps, 0.0]
+        q = list(ctr)
+        q[1] = crn[1]
+        add(q, t_norm(d), "grazing %g leaving a cell wall" % eps)
+        add(q, t_norm([-1.0, -eps, 0.0]), "grazing %g into a cell wall" % eps)
+    # on the lower faces / corner of the box
+    lo = [t_plane(sc, k, 0) for k in range(3)]
+    add(lo, t_norm([cs[0], cs[1], cs[2]]), "from the lower box corner inwards")
+    add(lo, t_norm([-1.0, -1.0, -1.0]), "from the lower box corner outwards")
+    q = list(ctr)
+    q[0] = lo[0]
+    add(q, [-1.0, 0.0, 0.0], "from the lower box face outwards")
+    add(q, [1.0, 0.0, 0.0], "from the lower box face inwards")
+    # one ulp below the upper box face
+    hi = [math.nextafter(sc["anchor"][k] + sc["sides"][k], -math.inf) for k in range(3)]
+    q = list(ctr)
+    q[2] = hi[2]
+    add(q, [0.0, 0.0, 1.0], "one ulp below the upper box face, outwards")
+    add(q, t_norm([0.3, 0.0, -1.0]), "one ulp below the upper box face, inwards")
+    return P
+
+
+def t_random_packet(rng, sc, nions):
+    N = sc["N"]
+    a, sides = sc["anchor"], sc["sides"]
+    cs = [sides[k] / N[k] for k in range(3)]
+    sg = lambda: rng.choice([-1.0, 1.0])
+    dm = rng.below(9)
+    if dm == 0:
+        d = [0.0, 0.0, 0.0]
+        d[rng.below(3)] = sg()
+        dk = "axis"
+    elif dm == 1:
+        k = rng.below(3)
+        d = [sg() * R2, sg() * R2, sg() * R2]
+        d[k] = 0.0
+        dk = "face diagonal"
+    elif dm == 2:
+        d = [sg() * R3, sg() * R3, sg() * R3]
+        dk = "space diagonal"
+    elif dm == 3:
+        d = [sg() * cs[0], sg() * cs[1], sg() * cs[2]]
+        if rng.below(3) == 0:
+            d[rng.below(3)] = 0.0
+        d = t_norm(d)
+        dk = "cell diagonal"
+    elif dm == 4:
+        v = list(rng.choice([[0.6, 0.8, 0.0], [1.0 / 3, 2.0 / 3, 2.0 / 3], [2.0 / 7, 3.0 / 7, 6.0 / 7], [3.0 / 13, 4.0 / 13, 12.0 / 13]]))
+        r = rng.below(3)
+        v = v[r:] + v[:r]
+        d = [sg() * x for x in v]
+        dk = "rational"
+    elif dm in (5, 6):
+        d = t_norm([rng.uniform() - 0.5 for _ in range(3)])
+        dk = "random"
+    elif dm == 7:
+        d = [sg() * (0.1 + rng.uniform()) for _ in range(3)]
+        d[rng.below(3)] = sg() * 10.0 ** (-1 - 2 * rng.uniform())
+        d = t_norm(d)
+        dk = "grazing"
+    else:
+        d = [sg() * (0.1 + rng.uniform()) for _ in range(3)]
+        d[rng.below(3)] = sg() * 1e-8
+        if rng.below(2):
+            d[rng.below(3)] = 0.0
+        if all(abs(x) <= 1e-8 for x in d):
+            d[rng.below(3)] = 1.0
+        d = t_norm(d)
+        dk = "grazing 1e-8"
+    L = sc["lays"][rng.below(len(sc["lays"]))]
+    for attempt in range(20):
+        pm = rng.below(9)
+        pos = []
+        nwall = {1: 1, 2: 2, 3: 3, 4: 1, 7: 3}.get(pm, 0)
+        axes = [0, 1, 2]
+        for i in range(3):                      # random order of the axes that sit on walls
+            j = i + rng.below(3 - i)
+            axes[i], axes[j] = axes[j], axes[i]
+        on = set(axes[:nwall])
+        for k in range(3):
+            if k in on:
+                if pm in (4, 7) and L.m[k] > 1:
+                    i = L.c[k] * (1 + rng.below(L.m[k] - 1))           # a subgrid face of layout L
+                else:
+                    i = rng.below(N[k])
+                x = t_plane(sc, k, i)
+                if pm == 6:
+                    x = math.nextafter(x, rng.choice([-math.inf, math.inf]))
+            elif pm == 0:
+                x = a[k] + (rng.below(N[k]) + 0.5) * cs[k]
+            else:
+                x = a[k] + rng.uniform() * sides[k]
+            pos.append(x)
+        if pm == 6:
+            k = rng.below(3)
+            pos[k] = math.nextafter(t_plane(sc, k, rng.below(N[k])), rng.choice([-math.inf, math.inf]))
+        if t_valid(sc, pos):
+            pk = {0: "cell centre", 1: "on a cell face", 2: "on a cell edge", 3: "on a cell corner", 4: "on a subgrid face", 5: "random", 6: "one ulp off a wall",
+                  7: "on a subgrid corner", 8: "random"}[pm]
+            return t_mkpkt(rng, sc, nions, pos, d, dk + " / " + pk)
+    pos = [a[k] + (N[k] // 2 + 0.5) * cs[k] for k in range(3)]
+    return t_mkpkt(rng, sc, nions, pos, d, dk + " / cell centre")
+
+
+def t_gen_scenes(ck, nions):
+    rng = ck.rng
+    q = ck.quick
+    S = []
+    allp = list(itertools.product((0, 1), repeat=3))
+    # --- corpus: hand-picked geometries
+    C = [
+        ("2^k box 8^3, cells 1, anchor 0: every crossing exact", [0, 0, 0], [8, 8, 8], (8, 8, 8), (0, 0, 0), [(2, 2, 2), (4, 4, 4), (8, 8, 8), (1, 2, 4), (8, 1, 1)], 2),
+        ("2^k box 8^3 fully periodic (1 and 2 subgrids on periodic axes)", [0, 0, 0], [8, 8, 8], (8, 8, 8), (1, 1, 1), [(2, 2, 2), (2, 1, 1), (1, 1, 2), (1, 2, 1), (8, 8, 8), (4, 2, 1)], 2),
+        ("2^k box 4x8x2 cells of size 0.5, anchor (-2,1,0), periodic in x", [-2, 1, 0], [2, 4, 1], (4, 8, 2), (1, 0, 0), [(1, 2, 1), (2, 2, 2), (4, 8, 2), (2, 1, 1)], 3),
+        ("box 0.3^3 at 0, 12^3 cells (nothing representable)", [0, 0, 0], [0.3, 0.3, 0.3], (12, 12, 12), (0, 0, 0), [(2, 2, 2), (3, 4, 2), (12, 1, 1), (1, 1, 12), (6, 2, 3), (4, 4, 4), (2, 3, 4), (12, 12, 12)], 2),
+        ("box 0.3^3 at 0, 12^3 cells, periodic in y and z", [0, 0, 0], [0.3, 0.3, 0.3], (12, 12, 12), (0, 1, 1), [(2, 2, 2), (3, 1, 2), (1, 2, 1), (4, 4, 4), (1, 1, 12)], 2),
+        ("non-cubic box (1/7, 0.3, 1.1), 6x4x2 cells", [0, 0, 0], [1.0 / 7.0, 0.3, 1.1], (6, 4, 2), (0, 0, 0), [(2, 2, 2), (6, 4, 2), (3, 1, 1), (1, 4, 1), (6, 1, 2)], 3),
+        ("non-cubic box (1/7, 0.3, 1.1), 6x4x2 cells, fully periodic", [0.1, -0.7, 1.0 / 3.0], [1.0 / 7.0, 0.3, 1.1], (6, 4, 2), (1, 1, 1), [(2, 2, 2), (6, 4, 2), (3, 1, 1), (1, 4, 1), (2, 1, 2)], 3),
+        ("unit-test box anchor -1.543e17 side 3.086e17, 8^3 cells", [-1.543e17] * 3, [3.086e17] * 3, (8, 8, 8), (0, 0, 0), [(2, 2, 2), (8, 8, 8), (4, 2, 1), (1, 1, 8)], 2),
+        ("unit-test box, 8^3 cells, periodic in x and z", [-1.543e17] * 3, [3.086e17] * 3, (8, 8, 8), (1, 0, 1), [(2, 2, 2), (1, 2, 2), (2, 4, 1), (8, 8, 8)], 3),
+        ("box 7x5x3 at (-1,2,0.5), cells 1 (prime cell counts)", [-1.0, 2.0, 0.5], [7, 5, 3], (7, 5, 3), (0, 0, 0), [(7, 5, 3), (1, 5, 1), (7, 1, 1), (1, 1, 3)], 4),
+        ("box 0.7^3 at (0.1,0.2,0.3), 6^3 cells, periodic in x", [0.1, 0.2, 0.3], [0.7, 0.7, 0.7], (6, 6, 6), (1, 0, 0), [(2, 2, 2), (1, 3, 3), (6, 1, 1), (3, 2, 1), (6, 6, 6)], 2),
+        ("empty box 2^k 4^3 (no opacity at all)", [0, 0, 0], [4, 4, 4], (4, 4, 4), (0, 0, 0), [(2, 2, 2), (4, 4, 4), (1, 4, 2)], 0),
+    ]
+    for i, (tag, an, si, N, per, lays, cm) in enumerate(C):
+        if q and len(lays) > 4:
+            keep = lays[:2] + [lays[2 + rng.below(len(lays) - 2)]] + [lays[-1]]
+            lays = [m for j, m in enumerate(keep) if m not in keep[:j]]
+        sc = t_scene(rng, "corpus: " + tag, an, si, N, per, lays, cm)
+        sc["packets"] = t_corpus_packets(rng, sc, nions)
+        sc["corpus"] = True
+        S.append(sc)
+    # --- copies: geometry of the original, neighbour table of the copy
+    CP = [
+        ("copies: 2x2x2 of 8^3, levels 0..2", [0, 0, 0], [1, 1, 1], (8, 8, 8), (0, 0, 0), (2, 2, 2), [1, 0, 2, 1, 0, 0, 1, 2]),
+        ("copies: 2x1x2 of 0.3-box 12^3 periodic in x, levels 1,2,0,1", [0, 0, 0], [0.3, 0.3, 0.3], (12, 12, 12), (1, 0, 0), (2, 1, 2), [1, 2, 0, 1]),
+        ("copies: 3x2x1 of 6x4x2, fully periodic, all level 1", [0.1, -0.7, 1.0 / 3.0], [1.0 / 7.0, 0.3, 1.1], (6, 4, 2), (1, 1, 1), (3, 2, 1), [1] * 6),
+    ]
+    for (tag, an, si, N, per, m, lv) in CP:
+        sc = t_scene(rng, tag, an, si, N, per, [m], 2, copies=[(m, lv)])
+        for j in range(10 if q else 40):
+            p = t_random_packet(rng, sc, nions)
+            p["sel"] = rng.below(4)
+            sc["packets"].append(p)
+        sc["corpus"] = False
+        S.append(sc)
+    # --- structured random rays over many layouts of the same global grid
+    grids = [(12, 12, 12), (12, 12, 12), (8, 8, 8), (6, 4, 2), (4, 6, 12), (12, 12, 12), (9, 6, 3)]
+    nsc = 28 if q else 280
+    for i in range(nsc):
+        N = grids[i % len(grids)]
+        per = allp[i % 8] if i < 16 else allp[rng.below(8)]
+        gm = i % 5
+        if gm == 0:
+            cs0 = 2.0 ** (rng.below(5) - 3)
+            an, si = [float(rng.below(5) - 2) for _ in range(3)], [cs0 * N[k] for k in range(3)]
+        elif gm == 1:
+            cs0 = rng.choice([1.0 / 3.0, 0.1, 0.7, 1.0 / 7.0, 3.3e16])
+            an, si = [0.0, 0.0, 0.0], [cs0 * N[k] for k in range(3)]
+        elif gm == 2:
+            an, si = [-1.543e17] * 3, [3.086e17] * 3
+        elif gm == 3:
+            an, si = [(rng.uniform() - 0.5) * 4 for _ in range(3)], [0.25 + 2 * rng.uniform() for _ in range(3)]
+        else:
+            an, si = [0.0, 0.0, 0.0], [1.0, 1.0, 1.0]
+        alll = [m for m in t_divisor_layouts(N) if m != (1, 1, 1)]
+        lays = []
+        for j in range(3 if q else 4):
+            m = alll[rng.below(len(alll))]
+            if m not in lays:
+                lays.append(m)
+        if i % 7 == 0 and tuple(N) not in lays:
+            lays[-1] = tuple(N)                 # one cell per subgrid
+        sc = t_scene(rng, "random %d: %dx%dx%d cells, periodic %s" % (i, N[0], N[1], N[2], per), an, si, N, per, lays, rng.below(6))
+        for j in range(12 if q else 16):
+            sc["packets"].append(t_random_packet(rng, sc, nions))
+        sc["corpus"] = False
+        S.append(sc)
+    return S
+
+
+# ---- running ------------------------------------------------------------------------------------------------------
+def t_build(ck, d):
+    """returns (model ok, harness ok)"""
+    ok0, log0 = vf.coq_make(["Cxx/C03_TraceDefs.vo", "Cxx/C03_Gen.vo"], timeout=600)
+    ok1, log1 = False, ""
+    if ok0:
+        rc, log1 = vf.sh(["timeout", "600", "coqc", "-Q", vf.COQ, "CMI", "-w", "none", "-o", os.path.join(d, "Extract_C03T.vo"),
+                          os.path.join(vf.COQ, "Extract", "Extract_C03T.v")], cwd=d, timeout=630)
+        ok1 = rc == 0
+    ok2, log2 = (False, "") if not ok1 else vf.ocaml_build(d, ["c03t_model"], os.path.join(vf.VERIF, "ocaml/c03t_driver.ml"), "tmodel", floats=True)
+    ok3, log3 = t_build_impl(d)
+    if not ok3:
+        ck.breaks.append("trace harness does not compile against %s/src:\n%s" % (vf.REPO, log3[-2000:]))
+    if not (ok0 and ok1 and ok2):
+        ck.breaks.append("trace model extraction/build failed:\n" + (log0[-1500:] if not ok0 else "") + (log1 + log2)[-2000:])
+    return ok0 and ok1 and ok2, ok3
+
+
+def t_build_impl(d):
+    return vf.cxx_build(os.path.join(HARN, "trace_harness.cpp"), os.path.join(d, "timpl"), openmp=True, extra=T_FLAGS)
+
+
+def t_parse_out(out, plan, model):
+    """plan: list of ('H', n) / ('P',).  returns list aligned with plan: header -> list of lines, packet -> dict(T,S,E,V) or None"""
+    res = []
+    i = 0
+    n = len(out)
+    for it in plan:
+        if it[0] == "H":
+            res.append(out[i:i + it[1]] if i + it[1] <= n else None)
+            i += it[1]
+            continue
+        if i >= n or not out[i].startswith("T "):
+            res.append(None)
+            continue
+        f = out[i].split()
+        try:
+            k = int(f[2])
+            if f[1] == "fuel":
+                k = min(k, T_FUELSHOWN)
+        except (IndexError, ValueError):
+            res.append(None)
+            continue
+        if i + 1 + k + 1 > n:
+            res.append(None)
+            i = n
+            continue
+        rec = {"T": out[i], "S": out[i + 1:i + 1 + k], "E": out[i + 1 + k], "V": None}
+        i += k + 2
+        if model and i < n and out[i].startswith("#V"):
+            rec["V"] = out[i]
+            i += 1
+        if not rec["E"].startswith("E ") or any(not s.startswith("S ") for s in rec["S"]):
+            res.append(None)
+            i = n
+            continue
+        res.append(rec)
+    return res
+
+
+def t_run(d, okm, oki, scenes, select=None):
+    """runs every (scene, layout) on harness and model.  returns dict (scene idx, layout idx, packet idx) -> (rec_impl, rec_model)
+    and a list of problems"""
+    lines, plan, owner = [], [], []
+    for si, sc in enumerate(scenes):
+        pk = [(pi, p) for pi, p in enumerate(sc["packets"]) if select is None or select(p)]
+        if not pk:
+            continue
+        for li, L in enumerate(sc["lays"]):
+            h = L.header()
+            lines += h
+            plan.append(("H", len(h)))
+            owner.append(None)
+            for pi, p in pk:
+                lines.append(t_pkt_line(p))
+                plan.append(("P",))
+                owner.append((si, li, pi))
+    text = "\n".join(lines) + "\n"
+    problems = []
+    ri = rm = None
+    if oki:
+        rc, out_i = vf.run_lines([os.path.join(d, "timpl")], text, timeout=3000, env={"OMP_NUM_THREADS": "2"})
+        ri = t_parse_out(out_i, plan, False)
+        if rc != 0:
+            problems.append("trace harness exited with %d after %d output lines" % (rc, len(out_i)))
+    if okm:
+        rc, out_m = vf.run_lines([os.path.join(d, "tmodel")], text, timeout=3000)
+        rm = t_parse_out(out_m, plan, True)
+        if rc != 0:
+            problems.append("trace model driver exited with %d after %d output lines: %r" % (rc, len(out_m), out_m[-1:]))
+    res = {}
+    for k, o in enumerate(owner):
+        if o is None:
+            if ri is not None and rm is not None and ri[k] != rm[k]:
+                problems.append("set-up lines differ: impl=%r model=%r" % (ri[k], rm[k]))
+            continue
+        res[o] = (ri[k] if ri is not None else None, rm[k] if rm is not None else None)
+    return res, problems
+
+
+def t_parse_rec(rec, nions, nheat=2):
+    f = rec["T"].split()
+    R = {"end": f[1], "ncalls": int(f[2]), "pos": [TD(x) for x in f[3:6]], "tau": TD(f[6]), "steps": [], "est": {}}
+    for l in rec["S"]:
+        g = l.split()
+        if len(g) != 18:
+            R["steps"].append(None)
+            continue
+        R["steps"].append({"sub": int(g[1]), "in": int(g[2]), "ppos": [TD(x) for x in g[3:6]], "ptau": TD(g[6]), "rel": [TD(x) for x in g[7:10]],
+                           "idx": [int(x) for x in g[10:13]], "out": int(g[13]), "qpos": [TD(x) for x in g[14:17]], "qtau": TD(g[17]),
+                           "bits": (g[3:7], g[14:18])})
+    e = rec["E"].split()
+    k = int(e[1])
+    per = 2 + nions + nheat
+    for i in range(k):
+        b = 2 + i * per
+        R["est"][(int(e[b]), int(e[b + 1]))] = [TD(x) for x in e[b + 2:b + per]]
+    return R
+
+
+# ---- the oracle ---------------------------------------------------------------------------------------------------
+def t_tols(sc, p):
+    scale = max(max(sc["sides"]), max(abs(x) for x in sc["anchor"]))
+    nz = [abs(x) for x in p["dir"] if x != 0.0]
+    dmin = min(nz) if nz else 1.0
+    return scale, 1e-12 * scale / min(1.0, dmin)
+
+
+def t_is_tie(sc, p):
+    """a direction component is EXACTLY 0 and the start coordinate of that axis lies on (within 8 ulp of) a cell-face plane of the global
+    grid; decided in rational arithmetic on the doubles"""
+    for k in range(3):
+        if p["dir"][k] != 0.0:
+            continue
+        side, N = Fr(sc["sides"][k]), sc["N"][k]
+        q = (Fr(p["pos"][k]) - Fr(sc["anchor"][k])) * N / side
+        j = round(q)
+        dist = abs(q - j) * side / N
+        if dist <= Fr(8 * T_EPS) * Fr(max(abs(p["pos"][k]), abs(sc["anchor"][k]), sc["sides"][k])):
+            return True
+    return False
+
+
+def t_kappa(sc, p, X):
+    nd, xH, xHe = sc["cells"][t_gidx(sc, X)]
+    return nd * (p["sigma"][0] * xH + p["sigma"][1] * xHe)
+
+
+def t_lengths(L, R, nions):
+    """per GLOBAL cell path length from the probe ion; None + text on an invalid index"""
+    out = {}
+    for (sub, cell), vals in R["est"].items():
+        X = L.gcoords(sub, cell)
+        if X is None:
+            return None, "estimators of subgrid %d cell %d changed: no such cell" % (sub, cell)
+        out[X] = out.get(X, 0.0) + vals[nions - 1]
+    return out, None
+
+
+T_WORST = {}          # clause -> largest (deviation / tolerance) seen on a passing comparison (diagnostics for the coverage record)
+
+
+T_STAT = [True]       # diagnostics only for rays whose smallest non-zero direction component is >= 1e-4 (the tolerance scales with 1/that)
+
+
+def t_w(label, r):
+    if T_STAT[0] and r > T_WORST.get(label, 0.0):
+        T_WORST[label] = r
+    return r
+
+
+def t_handover_oracle(sc, L, p, R):
+    """consistency of one traced run of the real code in itself (S lines).  returns (None | text, worst deviation / tolerance)"""
+    N, per, a, sides = sc["N"], sc["per"], sc["anchor"], sc["sides"]
+    scale, tol_len = t_tols(sc, p)
+    tolc = 1e-12 * scale
+    worst = 0.0
+    cs = [sides[k] / N[k] for k in range(3)]
+    if R["end"] == "err":
+        return "the task loop was handed a subgrid index that does not exist (after %d calls)" % R["ncalls"], 1e9
+    if len(R["steps"]) != (min(R["ncalls"], T_FUELSHOWN) if R["end"] == "fuel" else R["ncalls"]) or any(s is None for s in R["steps"]):
+        return "malformed trace", 1e9
+    prev = None
+    for k, st in enumerate(R["steps"]):
+        if not (0 <= st["sub"] < L.T):
+            return "call %d: subgrid index %d out of range" % (k, st["sub"]), 1e9
+        j = L.lattice(L.orig[st["sub"]])
+        sa = L.anchor_of(j)
+        if prev is None:
+            if st["in"] != 0:
+                return "call 0: input direction %d, expected INSIDE" % st["in"], 1e9
+            if st["bits"][0][:3] != [TH(x) for x in p["pos"]] or st["bits"][0][3] != TH(p["tau"]):
+                return "call 0: packet differs from the one that was sent", 1e9
+        else:
+            o = prev["out"]
+            if not (1 <= o < 27):
+                return "call %d: interact returned %d" % (k - 1, o), 1e9
+            off = OFF[o]
+            if st["bits"][0] != prev["bits"][1]:
+                return "hand-over %d: packet position/optical depth changed between the calls" % k, 1e9
+            if st["in"] != OPP[o]:
+                return "hand-over %d: left through %s, handed to the neighbour as %s instead of %s" % (k, NAMES[o], NAMES[st["in"]] if 0 <= st["in"] < 27 else st["in"], NAMES[OPP[o]]), 1e9
+            pj = L.lattice(L.orig[prev["sub"]])
+            for ax in range(3):
+                e = pj[ax] + off[ax]
+                if per[ax]:
+                    e %= L.m[ax]
+                if e != j[ax]:
+                    return "hand-over %d: left subgrid at lattice %s through %s, arrived in the subgrid at %s" % (k, pj, NAMES[o], j), 1e9
+            for ax in range(3):
+                if off[ax] != 0:
+                    exp = 0 if off[ax] > 0 else L.c[ax] - 1
+                    if st["idx"][ax] != exp:
+                        return "hand-over %d: crossed axis %d through %s, start index %d instead of %d (the cell adjacent to the one left)" % (k, ax, NAMES[o], st["idx"][ax], exp), 1e9
+                # physical start position = exit position (modulo the box side on periodic axes)
+                dlt = (sa[ax] + st["rel"][ax]) - prev["qpos"][ax]
+                if per[ax]:
+                    dlt -= round(dlt / sides[ax]) * sides[ax]
+                worst = max(worst, t_w("hand-over position", abs(dlt) / tolc))
+                if abs(dlt) > tolc:
+                    return "hand-over %d: left at coordinate %d = %r, the neighbour starts at %r" % (k, ax, prev["qpos"][ax], sa[ax] + st["rel"][ax]), abs(dlt) / tolc
+        # the start cell contains the start point (closed cell, within the tolerance)
+        for ax in range(3):
+            lo, hi = st["idx"][ax] * cs[ax], (st["idx"][ax] + 1) * cs[ax]
+            dv = max(lo - st["rel"][ax], st["rel"][ax] - hi, 0.0)
+            worst = max(worst, t_w("start cell contains start point", dv / tolc))
+            if dv > tolc:
+                return "call %d: start cell index %d on axis %d (cell [%r, %r]) does not contain the start coordinate %r (relative to the subgrid)" % (
+                    k, st["idx"][ax], ax, lo, hi, st["rel"][ax]), dv / tolc
+        # the target may grow by a step of about -1 ulp length (trunc(x * inv) can round up to the next cell); not by more
+        grow = st["qtau"] - st["ptau"]
+        tolg = 1e-12 * abs(st["ptau"]) + tol_len * (sc["kmaxH"] * p["sigma"][0] + sc["kmaxHe"] * p["sigma"][1]) + 1e-300
+        if grow > 0.0:
+            worst = max(worst, t_w("optical depth does not grow", grow / tolg))
+        if grow > tolg:
+            return "call %d: target optical depth grew from %r to %r" % (k, st["ptau"], st["qtau"]), grow / tolg
+        prev = st
+    if prev is not None:
+        if R["end"] in ("absorbed", "escaped") and ([TH(x) for x in R["pos"]] != prev["bits"][1][:3] or TH(R["tau"]) != prev["bits"][1][3]):
+            return "final packet differs from what the last call left", 1e9
+        if R["end"] == "absorbed" and prev["out"] != 0:
+            return "absorbed although the last call returned %d" % prev["out"], 1e9
+        if R["end"] == "escaped":
+            o = prev["out"]
+            if not (1 <= o < 27):
+                return "escaped although the last call returned %d" % o, 1e9
+            pj = L.lattice(L.orig[prev["sub"]])
+            ends = [ax for ax in range(3) if OFF[o][ax] != 0 and not per[ax] and not (0 <= pj[ax] + OFF[o][ax] < L.m[ax])]
+            if not ends:
+                return "escaped through %s of the subgrid at %s although the box does not end there" % (NAMES[o], pj), 1e9
+            for ax in ends:
+                plane = a[ax] + sides[ax] if OFF[o][ax] > 0 else a[ax]
+                dv = abs(prev["qpos"][ax] - plane)
+                worst = max(worst, t_w("escape on the box face", dv / tolc))
+                if dv > tolc:
+                    return "escaped through %s at coordinate %d = %r, the box face is at %r" % (NAMES[o], ax, prev["qpos"][ax], plane), dv / tolc
+    if R["end"] == "absorbed":
+        for ax in range(3):
+            dv = max(a[ax] - R["pos"][ax], R["pos"][ax] - (a[ax] + sides[ax]), 0.0)
+            if dv > tolc:
+                return "absorbed outside the box (coordinate %d = %r)" % (ax, R["pos"][ax]), dv / tolc
+    return None, worst
+
+
+def t_pair_oracle(sc, L, p, RL, RB, nions):
+    """layout independence on the real outputs: run through layout L vs. run through the undivided grid.
+    returns (None | 'skip:...' | text, worst deviation / tolerance)"""
+    B = sc["lays"][0]
+    per, a, sides, d = sc["per"], sc["anchor"], sc["sides"], p["dir"]
+    scale, tol_len = t_tols(sc, p)
+    for (nm, R) in (("layout " + L.name(), RL), ("undivided grid", RB)):
+        if R["end"] == "err":
+            return "%s: the task loop was handed a subgrid index that does not exist" % nm, 1e9
+    if RL["end"] == "fuel" and RB["end"] == "fuel":
+        return "skip:fuel", 0.0
+    if RL["end"] == "fuel" and RB["end"] != "fuel" and 2 * (RB["ncalls"] + 1) * sum(L.m) + 10 >= T_MAXCALLS:
+        return "skip:fuel", 0.0            # the undivided run wrapped so often that the split run legitimately needs more calls than the cap
+    if RL["end"] == "fuel" or RB["end"] == "fuel":
+        return "layout %s: %s after %d interact calls (cap), undivided grid: %s after %d" % (L.name(), RL["end"], RL["ncalls"], RB["end"], RB["ncalls"]), 1e9
+    lenL, w1 = t_lengths(L, RL, nions)
+    lenB, w2 = t_lengths(B, RB, nions)
+    if w1 or w2:
+        return w1 or w2, 1e9
+    sL, sB = sum(lenL.values()), sum(lenB.values())
+    wraps = 1.0 + max(sL, sB) / min(sides)
+    tl = tol_len * wraps
+    worst = 0.0
+    for (nm, ln) in (("layout " + L.name(), lenL), ("undivided grid", lenB)):
+        for X, v in ln.items():
+            if v < -tl:
+                return "%s: negative length %r credited to global cell %s" % (nm, v, X), abs(v) / tl
+    (Rl, ll, sl, nl), (Rs, ls, ss, nsn) = ((RL, lenL, sL, "layout " + L.name()), (RB, lenB, sB, "undivided grid"))
+    if sl < ss:
+        (Rl, ll, sl, nl), (Rs, ls, ss, nsn) = (Rs, ls, ss, nsn), (Rl, ll, sl, nl)
+    cells = set(ll) | set(ls)
+    kap = {X: t_kappa(sc, p, X) for X in cells}
+    dtau = 1e-12 * (p["tau"] if p["tau"] < 1e290 else 0.0) + tl * sum(kap.values()) + 1e-300
+    excess_tau = 0.0
+    tail = False
+    worst_cell = None
+    both_escaped = RL["end"] == "escaped" and RB["end"] == "escaped"
+    lab = "length per global cell" + ("" if both_escaped else " (absorbed rays: includes where the packet stops)")
+    for X in cells:
+        e = ll.get(X, 0.0) - ls.get(X, 0.0)
+        if e < -tl:
+            return "%s credits %r to global cell %s, %s credits %r (path of the %s is the longer one)" % (nsn, ls.get(X, 0.0), X, nl, ll.get(X, 0.0), nl), abs(e) / tl
+        if e > tl:
+            tail = True
+            excess_tau += e * kap[X]
+            if worst_cell is None or e > worst_cell[1]:
+                worst_cell = (X, e)
+        else:
+            r = t_w(lab, abs(e) / tl)
+            if both_escaped:
+                worst = max(worst, r)
+    if tail:
+        X, e = worst_cell
+        if both_escaped:
+            return "global cell %s: %s credits %r, %s credits %r (difference %r, tolerance %r)" % (X, nl, ll.get(X, 0.0), nsn, ls.get(X, 0.0), e, tl), e / tl
+        # an absorbed packet may stop earlier/later by what is optically nothing (target reached at a cell wall in front of empty cells)
+        worst = max(worst, t_w("optical depth of an early/late stop", excess_tau / dtau))
+        if excess_tau > dtau:
+            return "global cell %s: %s credits %r, %s credits %r; the extra path has optical depth %r (tolerance %r)" % (
+                X, nl, ll.get(X, 0.0), nsn, ls.get(X, 0.0), excess_tau, dtau), max(e / tl, excess_tau / dtau)
+    if RL["end"] != RB["end"]:
+        esc = RL if RL["end"] == "escaped" else RB
+        worst = max(worst, t_w("optical depth left when only one run is absorbed", abs(esc["tau"]) / dtau))
+        if not (abs(esc["tau"]) <= dtau):
+            return "layout %s: %s, undivided grid: %s (optical depth left %r / %r)" % (L.name(), RL["end"], RB["end"], RL["tau"], RB["tau"]), abs(esc["tau"]) / dtau
+    elif both_escaped:
+        dv = abs(RL["tau"] - RB["tau"])
+        worst = max(worst, t_w("optical depth left (both escaped)", dv / dtau))
+        if dv > dtau:
+            return "escaped with optical depth %r left, undivided grid %r (tolerance %r)" % (RL["tau"], RB["tau"], dtau), dv / dtau
+    # end position: long = short + (s_long - s_short) d, modulo the box side on periodic axes
+    ds = sl - ss
+    tp = tl + 4 * T_EPS * scale
+    for ax in range(3):
+        dv = Rl["pos"][ax] - Rs["pos"][ax] - ds * d[ax]
+        if per[ax]:
+            r = round(dv / sides[ax])
+            if r != 0 and not tail:
+                onface = min(abs(Rl["pos"][ax] - a[ax]), abs(Rl["pos"][ax] - (a[ax] + sides[ax]))) <= tp
+                if not onface or abs(r) > 1:
+                    return "end position coordinate %d: %r vs %r in the undivided grid" % (ax, RL["pos"][ax], RB["pos"][ax]), 1e9
+            dv -= r * sides[ax]
+        worst = max(worst, t_w("end position", abs(dv) / tp))
+        if abs(dv) > tp:
+            return "end position coordinate %d: %r vs %r in the undivided grid (tolerance %r)" % (ax, RL["pos"][ax], RB["pos"][ax], tp), abs(dv) / tp
+    # sum of the lengths = distance travelled (each run)
+    for (nm, R, s) in (("layout " + L.name(), RL, sL), ("undivided grid", RB, sB)):
+        for ax in range(3):
+            dv = s * d[ax] - (R["pos"][ax] - p["pos"][ax])
+            if per[ax]:
+                dv -= round(dv / sides[ax]) * sides[ax]
+            worst = max(worst, t_w("sum of lengths = distance", abs(dv) / tp))
+            if abs(dv) > tp:
+                return "%s: credited lengths sum to %r but coordinate %d moved from %r to %r" % (nm, s, ax, p["pos"][ax], R["pos"][ax]), abs(dv) / tp
+    return None, worst
+
+
+# ---- second pass: targets at / around the partial sums of the optical depth ----------------------------------------
+def t_second_pass(rng, sc, L, p, rec_m, R):
+    """packets with the geometry of p and targets chosen from the visits of the first pass (model's #V line, layout L)"""
+    if rec_m is None or rec_m.get("V") is None or R["end"] not in ("absorbed", "escaped"):
+        return []
+    f = rec_m["V"].split()[2:]
+    vis = []
+    for x in f:
+        s, c, l = x.split(":")
+        X = L.gcoords(int(s), int(c))
+        if X is None:
+            return []
+        vis.append((int(s), X, TD(l)))
+    sH, sHe = p["sigma"][0], p["sigma"][1]
+    ps, td, bnd = [], 0.0, []
+    for i, (s, X, l) in enumerate(vis):
+        nd, xH, xHe = sc["cells"][t_gidx(sc, X)]
+        td += l * nd * (sH * xH + sHe * xHe)
+        ps.append(td)
+        if i + 1 < len(vis) and vis[i + 1][0] != s:
+            bnd.append(i)              # last visit before a hand-over
+    out = []
+
+    def mk(t, kind):
+        if t > 0.0 and t < 1e290 and t == t:
+            q = dict(p)
+            q["tau"], q["pass"], q["kind"] = t, 2, p["kind"] + " | " + kind
+            out.append(q)
+    pos = [t for t in ps if t > 0.0]
+    if not pos:
+        if rng.below(3) == 0:
+            mk(rng.choice([1e-3, 1.0]), "no opacity on the path")
+        return out
+    # absorbed inside the first cell with opacity / inside the last cell before the end
+    if rng.below(2):
+        mk(pos[0] * rng.uniform(), "absorbed inside the first opaque cell")
+    if len(ps) >= 2 and ps[-1] > ps[-2] and rng.below(2):
+        mk(ps[-2] + (ps[-1] - ps[-2]) * rng.uniform(), "absorbed inside the last cell before the box boundary" if R["end"] == "escaped" else "absorbed inside the last cell of the first pass")
+    # at / one ulp around a partial sum: at a subgrid boundary if there is one, else at a cell boundary
+    cand = [ps[i] for i in bnd if ps[i] > 0.0]
+    if cand and rng.below(4):
+        t = rng.choice(cand)
+        mk(rng.choice([t, math.nextafter(t, 0.0), math.nextafter(t, math.inf)]), "partial sum at a subgrid boundary")
+    else:
+        t = rng.choice(pos)
+        mk(rng.choice([t, math.nextafter(t, 0.0), math.nextafter(t, math.inf)]), "partial sum at a cell boundary")
+    if rng.below(3) == 0:
+        k = rng.below(len(ps))
+        lo = ps[k - 1] if k > 0 else 0.0
+        if ps[k] > lo:
+            mk(lo + (ps[k] - lo) * rng.uniform(), "inside a cell")
+    if R["end"] == "escaped" and rng.below(3) == 0:
+        mk(ps[-1] * (1.0 + rng.uniform()), "beyond the total")
+    return out
+
+
+def t_readable(sc, L, p):
+    return {"scene": sc["tag"], "anchor": sc["anchor"], "sides": sc["sides"], "cells": list(sc["N"]), "periodic": list(sc["per"]), "layout": list(L.m),
+            "copy_levels": L.lv, "start_copy_selector": p["sel"], "position": p["pos"], "direction": p["dir"], "target_optical_depth": p["tau"],
+            "sigma_H": p["sigma"][0], "sigma_He": p["sigma"][1], "kind": p["kind"]}
+
+
+def t_replay_dict(sc, L, p, why, extra=None):
+    r = {"kind": "trace", "failing_clause": why, "grid_layout": L.header(), "grid_undivided": sc["lays"][0].header(), "packet": t_pkt_line(p),
+         "readable": t_readable(sc, L, p)}
+    if extra:
+        r.update(extra)
+    return r
+
+
+def t_scene_of_lines(hl):
+    """rebuild (scene, layout) from stored G/F/C lines"""
+    g = hl[0].split()
+    v = [TD(x) for x in g[1:7]]
+    ints = [int(x) for x in g[7:16]]
+    sc = {"tag": "replay", "anchor": v[0:3], "sides": v[3:6], "N": tuple(ints[0:3]), "per": tuple(ints[6:9]), "Fline": hl[1]}
+    f = hl[1].split()[1:]
+    sc["cells"] = [(TD(f[3 * i]), TD(f[3 * i + 1]), TD(f[3 * i + 2])) for i in range(len(f) // 3)]
+    t_kmax(sc)
+    lv = [int(x) for x in hl[2].split()[1:]] if len(hl) > 2 else None
+    L = TLay(sc, tuple(ints[3:6]), lv)
+    sc["lays"] = [TLay(sc, (1, 1, 1)), L]
+    return sc, L
+
+
+def t_pkt_of_line(l):
+    q = l.split()
+    v = [TD(x) for x in q[2:]]
+    return {"sel": int(q[1]), "pos": v[0:3], "dir": v[3:6], "tau": v[6], "w": v[7], "energy": v[8], "sigma": v[9:], "kind": "replay", "pass": 0}
+
+
+def t_eval(sc, L, p, recL, recB, nions):
+    """all oracle clauses for one ray on the real outputs.  returns (why | None, ratio, tie, skipped)"""
+    if recL is None:
+        return "no (complete) answer from the real code for layout %s (it aborted or crashed)" % L.name(), 1e9, False, None
+    RL = t_parse_rec(recL, nions)
+    nzd = [abs(x) for x in p["dir"] if x != 0.0]
+    T_STAT[0] = bool(nzd) and min(nzd) >= 1e-4
+    why, ratio = t_handover_oracle(sc, L, p, RL)
+    if why:
+        return "hand-over: " + why, ratio, False, None
+    if L is sc["lays"][0]:
+        return None, ratio, False, None
+    if recB is None:
+        return "no (complete) answer from the real code for the undivided grid", 1e9, False, None
+    RB = t_parse_rec(recB, nions)
+    why2, ratio2 = t_pair_oracle(sc, L, p, RL, RB, nions)
+    ratio = max(ratio, ratio2)
+    if why2 and why2.startswith("skip:"):
+        return None, ratio, False, why2[5:]
+    if why2:
+        tie = t_is_tie(sc, p)
+        return "layout independence: " + why2, ratio2, tie, None
+    return None, ratio, False, None
+
+
+def run_trace(ck):
+    d = ck.scratch
+    cov = ck.coverage
+    t0 = time.time()
+    okm, oki = t_build(ck, d)
+    nions = 14
+    if oki:
+        rc, info = vf.run_lines([os.path.join(d, "timpl"), "--info"], "")
+        kv = dict(zip(info[0].split()[0::2], info[0].split()[1::2])) if info else {}
+        nions = int(kv.get("nions", 14))
+        if kv.get("helium") != "1" or kv.get("variable_abundances") != "0" or kv.get("lockfree") != "0" or kv.get("heatingterms") != "2" \
+                or kv.get("ion_H") != "0" or kv.get("ion_He") != "1" or kv.get("assertions") != "0" or nions < 3:
+            ck.breaks.append("configuration of %s differs from the one modelled (HAS_HELIUM, no VARIABLE_ABUNDANCES, 2 heating terms, assertions off): %r" % (vf.REPO, kv))
+    rng = ck.rng
+    scenes = t_gen_scenes(ck, nions)
+    res1, prob1 = t_run(d, okm, oki, scenes)
+    # second pass
+    n1 = [len(sc["packets"]) for sc in scenes]
+    for si, sc in enumerate(scenes):
+        new = []
+        for pi in range(n1[si]):
+            p = sc["packets"][pi]
+            li = rng.below(len(sc["lays"]))
+            ri, rm = res1.get((si, li, pi), (None, None))
+            src = rm if rm is not None else None
+            if src is None:
+                if rng.below(2):
+                    q = dict(p)
+                    q["tau"], q["pass"] = 10.0 ** (rng.uniform() * 4 - 3), 2
+                    new.append(q)
+                continue
+            R = t_parse_rec(src, nions)
+            qs = t_second_pass(rng, sc, sc["lays"][li], p, src, R)
+            if ck.quick and len(qs) > 2 and not sc.get("corpus"):
+                qs = qs[:2]
+            if ck.quick and sc.get("corpus") and len(qs) > 1:
+                qs = [qs[rng.below(len(qs))]]
+            new += qs
+        sc["packets"] += new
+    res2, prob2 = t_run(d, okm, oki, scenes, select=lambda p: p["pass"] == 2)
+    res = dict(res1)
+    res.update(res2)
+    for pr in prob1 + prob2:
+        ck.breaks.append("C03 trace: " + pr)
+    # ---- evaluate
+    ntr = nmis = norac = ntie_skip = ntie_ok = nfuel = nfail = nmarg = 0
+    viol_done = 0
+    hist_lay, hist_out, hist_end, hist_kind, hist_wrap = {}, {}, {}, {}, {}
+    first_last = {"absorbed in the first cell": 0, "absorbed in the last cell before the box boundary": 0, "absorbed elsewhere": 0}
+    maxcalls = 0
+    maxratio = 0.0
+    sigs = set()
+    samples, marginal, tie_examples = [], [], []
+    failing = []
+    for (si, li, pi), (ri, rm) in sorted(res.items()):
+        sc = scenes[si]
+        L = sc["lays"][li]
+        p = sc["packets"][pi]
+        ntr += 1
+        mism = None
+        if okm and oki:
+            a = None if ri is None else [ri["T"]] + ri["S"] + [ri["E"]]
+            b = None if rm is None else [rm["T"]] + rm["S"] + [rm["E"]]
+            if a != b:
+                nmis += 1
+                if a is None or b is None:
+                    mism = "impl=%r model=%r" % (a and a[0], b and b[0])
+                else:
+                    j = vf.first_diff(a, b)
+                    mism = "output line %d: impl=%r model=%r" % (j, a[j][:300] if j < len(a) else None, b[j][:300] if j < len(b) else None)
+        why = ratio = None
+        if oki:
+            rB = res.get((si, 0, pi), (None, None))[0]
+            why, ratio, tie, skipped = t_eval(sc, L, p, ri, rB, nions)
+            norac += 1
+            if skipped:
+                nfuel += 1
+            if why and tie:
+                ntie_skip += 1
+                if len(tie_examples) < 3:
+                    tie_examples.append({"why": why[:300], "input": t_readable(sc, L, p)})
+                why = None
+            elif why is None and ratio is not None:
+                if T_STAT[0]:
+                    maxratio = max(maxratio, ratio)
+                if li != 0 and t_is_tie_fast(p):
+                    if "_tie" not in p:
+                        p["_tie"] = t_is_tie(sc, p)
+                    if p["_tie"]:
+                        ntie_ok += 1
+            if why:
+                nfail += 1
+                failing.append((si, li, pi, why, ratio))
+        if mism is not None and viol_done < 3:
+            viol_done += 1
+            desc = "trace model and real code disagree on layout %s of scene %r, packet %r: %s" % (L.name(), sc["tag"], p["kind"], mism)
+            if why:
+                ck.violation("C03 fails on the real code: %s (%s)" % (why, desc), t_replay_dict(sc, L, p, why, {"impl_out": ri, "model_out": rm}),
+                             key={"kind": "trace", "clause": why.split(":")[0]})
+                p["_reported"] = True
+            else:
+                ck.breaks.append("correspondence C03 trace model <-> real code: " + desc + " input=" + json.dumps(t_readable(sc, L, p)))
+        # statistics
+        if ri is not None:
+            f = ri["T"].split()
+            hist_lay[L.name()] = hist_lay.get(L.name(), 0) + 1
+            hist_end[f[1]] = hist_end.get(f[1], 0) + 1
+            nc = int(f[2])
+            maxcalls = max(maxcalls, nc)
+            outs = [int(s.split()[13]) for s in ri["S"] if len(s.split()) == 18]
+            wrapped = 0
+            for s in ri["S"][:-1] if f[1] != "fuel" else ri["S"]:
+                g = s.split()
+                if len(g) == 18 and 0 <= int(g[13]) < 27:
+                    o = int(g[13])
+                    hist_out[NAMES[o]] = hist_out.get(NAMES[o], 0) + 1
+                    j = L.lattice(L.orig[int(g[1])]) if 0 <= int(g[1]) < L.T else None
+                    if j and any(OFF[o][ax] != 0 and sc["per"][ax] and not (0 <= j[ax] + OFF[o][ax] < L.m[ax]) for ax in range(3)):
+                        wrapped += 1
+            wk = "0" if wrapped == 0 else ("1" if wrapped == 1 else ("2-5" if wrapped <= 5 else "6+"))
+            hist_wrap[wk] = hist_wrap.get(wk, 0) + 1
+            kd = p["kind"].split(" | ")[0].split(" / ")[0]
+            hist_kind[kd] = hist_kind.get(kd, 0) + 1
+            if f[1] == "absorbed" and p["pass"] == 2:
+                kk = p["kind"].split(" | ")[-1]
+                if "first" in kk:
+                    first_last["absorbed in the first cell"] += 1
+                elif "before the box boundary" in kk:
+                    first_last["absorbed in the last cell before the box boundary"] += 1
+                else:
+                    first_last["absorbed elsewhere"] += 1
+            if nc >= 2 or f[1] == "absorbed":
+                sigs.add((si, li, tuple(outs), f[1], tuple((x > 0) - (x < 0) for x in p["dir"]), p["pass"]))
+            if len(samples) < 2 and nc >= 3 and li > 0:
+                samples.append({"input": t_readable(sc, L, p), "impl_out": [ri["T"]] + [s[:200] for s in ri["S"][:3]]})
+    # oracle failures on the real outputs: violations (concrete inputs); a deviation below 100 x the tolerance while the model still
+    # corresponds bit for bit and nothing else broke is listed as marginal instead (round-off of the comparison, not of the property)
+    failing.sort(key=lambda x: -x[4])
+    for (si, li, pi, why, ratio) in failing:
+        sc = scenes[si]
+        L = sc["lays"][li]
+        p = sc["packets"][pi]
+        if p.get("_reported"):
+            continue
+        hard = ratio >= 100.0 or nmis > 0 or bool(ck.breaks)
+        if hard:
+            if viol_done < 6:
+                viol_done += 1
+                ri = res[(si, li, pi)][0]
+                ck.violation("C03 fails on the real code: %s (scene %r, layout %s, packet %r)" % (why, sc["tag"], L.name(), p["kind"]),
+                             t_replay_dict(sc, L, p, why, {"impl_out": ri}), key={"kind": "trace", "clause": why.split(":")[0]})
+        else:
+            nmarg += 1
+            if len(marginal) < 5:
+                marginal.append({"why": why[:400], "ratio": ratio, "input": t_readable(sc, L, p)})
+    if nmarg:
+        ck.notes.append("trace oracle: %d rays deviate from the undivided grid by 1..100 x the tolerance while model and code agree bit for bit (listed in coverage trace_oracle_marginal)" % nmarg)
+    cov["evaluations"] = cov.get("evaluations", 0) + ntr
+    cov["distinct_nontrivial"] = cov.get("distinct_nontrivial", 0) + len(sigs)
+    cov["trace_rule"] = ("trace evaluations = (ray, layout) pairs: one packet traced by the REAL DensitySubGridCreator::get_subgrid / DensitySubGrid::interact / get_neighbour / "
+                         "TravelDirections::output_to_input_direction in the order of PhotonTraversalTaskContext::execute, compared line by line (end decision, number of interact calls, per call: subgrid, input "
+                         "direction, packet before, relative start position and start index computed by the real update_photon_position/get_start_index, returned direction, packet after; every changed "
+                         "(subgrid, cell) estimator: %d mean intensities + 2 heating terms, all doubles as bit patterns) with the extracted binary64 model f_trace_packet / f_trace_copies; AND the oracle on the "
+                         "real outputs: hand-over consistency of every call (opposite input direction, lattice-adjacent subgrid, adjacent start cell on crossed axes, start cell contains the exit point, "
+                         "physical position preserved modulo the box side) and layout independence against the undivided grid 1x1x1 of the same scene (end decision, per global cell length from a probe ion "
+                         "with sigma = weight = 1, end position, optical depth left, sum of lengths = distance). Tolerance: 1e-12 x max(box side, |anchor|) / min(1, smallest non-zero |direction component|) "
+                         "for lengths and positions (x (1 + path/min side) for wrapped paths); optical depths: 1e-12 x target + length tolerance x sum of the opacities of the visited cells; an absorbed "
+                         "packet may stop earlier/later than in the undivided grid only by a stretch whose optical depth is below that bound (target reached at a wall in front of empty cells). "
+                         "Rays with a direction component exactly 0 that start within 8 ulp of a cell-face plane of that axis are ties (floor of the plane coordinate): a disagreement there is counted, not "
+                         "reported. Scenes: %d hand-picked geometries (2^k boxes where every crossing is exact, 0.3 / 1/7 / 0.7 boxes, non-cubic, anchors off 0, the unit-test box, prime cell counts, empty box; "
+                         "open, partly and fully periodic incl. 1 and 2 subgrids on a periodic axis) each with ~100 hand-picked rays (axes, face/space/cell diagonals through corners and edges, along edges, in "
+                         "face planes, starts on cell/subgrid faces and corners, grazing 1e-1..1e-3 and 1e-8, box corner/faces, one ulp below the upper face), 3 scenes with copies, then random scenes over the "
+                         "grids 12^3, 8^3, 6x4x2, 4x6x12, 9x6x3 with random divisor layouts (incl. one cell per subgrid), all 8 periodicity triples, 5 box modes, 6 density modes incl. empty cells; second pass "
+                         "re-sends rays with targets inside the first opaque cell, inside the last cell, at / one ulp around partial sums at subgrid and cell boundaries, inside a cell, beyond the total. "
+                         "non-trivial = >= 2 interact calls or absorbed; distinct = distinct (scene, layout, sequence of exit codes, end, direction signs, pass)") % (
+                             nions, sum(1 for s in scenes if s.get("corpus")))
+    cov["trace_evaluations"] = ntr
+    cov["trace_distinct_nontrivial"] = len(sigs)
+    cov["trace_distinct_rays"] = sum(len(sc["packets"]) for sc in scenes)
+    cov["trace_scenes"] = len(scenes)
+    cov["trace_mismatches"] = nmis
+    cov["trace_oracle_evaluations"] = norac
+    cov["trace_oracle_failures"] = nfail
+    cov["trace_oracle_marginal"] = marginal
+    cov["trace_oracle_max_deviation_over_tolerance"] = maxratio
+    cov["trace_oracle_max_deviation_over_tolerance_per_clause"] = dict(T_WORST)
+    cov["trace_ties_disagreeing_skipped"] = ntie_skip
+    cov["trace_ties_agreeing"] = ntie_ok
+    cov["trace_tie_examples"] = tie_examples
+    cov["trace_both_fuel_skipped"] = nfuel
+    cov["trace_histogram_layout"] = hist_lay
+    cov["trace_histogram_end"] = hist_end
+    cov["trace_histogram_handover_exit_code"] = hist_out
+    cov["trace_edge_corner_handovers"] = sum(v for k, v in hist_out.items() if k.startswith("EDGE") or k.startswith("CORNER"))
+    cov["trace_histogram_periodic_wraps_per_ray"] = hist_wrap
+    cov["trace_histogram_ray_kind"] = hist_kind
+    cov["trace_second_pass_absorbed"] = first_last
+    cov["trace_max_interact_calls"] = maxcalls
+    cov["trace_wall_s"] = round(time.time() - t0, 1)
+    cov["samples"] = list(cov.get("samples", [])) + samples
+    ck.log("trace: %d (ray, layout) pairs, %d mismatches model<->code, oracle %d failures (%d marginal), max deviation/tolerance %.3g, ties skipped %d, %.1fs" % (
+        ntr, nmis, nfail, nmarg, maxratio, ntie_skip, time.time() - t0))
+    ck.assumptions += [
+        "trace (layers 2/4): the harness reproduces the task loop for ONE packet (source task: get_subgrid(position), INSIDE; traversal task: interact, store_photon = neighbour exists, "
+        "buffer direction = output_to_input_direction); buffers, queues, threads and MPI are not involved (C01 covers the bookkeeping)",
+        "trace: harness compiled with -O1 -ffp-contract=off; at most %d interact calls per packet ('fuel' in both model and harness)" % T_MAXCALLS,
+        "trace: start positions are inside the box (get_subgrid of a position on/after the upper box face indexes outside the subgrid array in the real code; not generated)",
+    ]
+
+
+def t_is_tie_fast(p):
+    return any(x == 0.0 for x in p["dir"])
+
+
+def replay_trace(ck, r):
+    d = ck.scratch
+    ok3, log3 = t_build_impl(d)
+    if not ok3:
+        print(log3[-2000:])
+        return 2
+    sc, L = t_scene_of_lines(r["grid_layout"])
+    p = t_pkt_of_line(r["packet"])
+    nions = len(p["sigma"])
+    lines = list(r["grid_layout"]) + [r["packet"]] + list(r["grid_undivided"]) + [r["packet"]]
+    rc, out = vf.run_lines([os.path.join(d, "timpl")], "\n".join(lines) + "\n", env={"OMP_NUM_THREADS": "2"})
+    plan = [("H", len(r["grid_layout"])), ("P",), ("H", len(r["grid_undivided"])), ("P",)]
+    pr = t_parse_out(out, plan, False)
+    print(json.dumps(r.get("readable"), indent=1))
+    for nm, rec in (("layout " + L.name(), pr[1]), ("undivided grid", pr[3])):
+        print("---", nm)
+        if rec is None:
+            print("no complete answer (exit code %d)" % rc)
+        else:
+            print(rec["T"])
+            for s in rec["S"][:40]:
+                g = s.split()
+                if len(g) == 18:
+                    print("  call sub=%s in=%s pos=(%s) tau=%r start rel=(%s) idx=%s -> out=%s pos=(%s) tau=%r" % (
+                        g[1], NAMES[int(g[2])] if 0 <= int(g[2]) < 27 else g[2], ", ".join(repr(TD(x)) for x in g[3:6]), TD(g[6]), ", ".join(repr(TD(x)) for x in g[7:10]),
+                        g[10:13], NAMES[int(g[13])] if 0 <= int(g[13]) < 27 else g[13], ", ".join(repr(TD(x)) for x in g[14:17]), TD(g[17])))
+                else:
+                    print("  " + s[:200])
+            if len(rec["S"]) > 40:
+                print("  ... %d more calls" % (len(rec["S"]) - 40))
+    why, ratio, tie, skipped = t_eval(sc, L, p, pr[1], pr[3], nions)
+    if why is None:
+        whyb, ratio, tie, skipped = t_eval(sc, sc["lays"][0], p, pr[3], pr[3], nions)
+        why = whyb and "undivided grid: " + whyb
+    if why and tie:
+        print("REPLAY: tie (direction component 0 on a cell-face plane): " + why)
+        return 0
+    print("REPLAY:", why or "property holds on this input")
+    return 1 if why else 0
+
+
 # ----------------------------------------------------------------------------------------------------------------
 def run(ck):
     d = ck.scratch
@@ -537,8 +1724,11 @@ def run(ck):
     # 4. layers 2 and 4: packets traced through the real creator vs. the extracted binary64 model + layout-independence oracle
     run_trace(ck)
     ck.assumptions += [
-        "layers 2 and 4 of the design (hand-over lemma in R and layout independence of the traced path lengths, absorption position and escape decision) are NOT part of this check; "
-        "they are handled by the coordinator together with C02. This check establishes the finite direction tables (layer 1) and the neighbour/copy wiring and folding (layer 3).",
+        "layers 2 and 4 (hand-over lemma, layout independence) are theorems about the REAL-NUMBER instance of the trace model Cxx/C03_TraceDefs.v (Cxx/C03_TraceProofs.v, Props/Properties_C03.v: "
+        "C03_handover_same_point_adjacent_cell_same_depth, C03_trace_refines_reference, C03_layout_independence, C03_split_equals_undivided, C03_termination_transfer, C03_trace_through_copies); premises: source position "
+        "in the half-open box, a non-zero direction component with cell size/|d| < DBL_MAX, non-negative opacities, positive target, both traces end within their fuel. The binary64 execution of the real code is tied to "
+        "the model by run_trace (bit-exact comparison of every interact call and every estimator; its own assumptions are the entries appended by run_trace, listed before this one); agreement of layouts up to round-off "
+        "is evidence from the split-vs-undivided oracle, not a theorem.",
         "direction tables: the Coq file C03_Gen.v holds what the real functions return on their whole finite domain (direction vectors are represented by 3 magnitudes per sign pattern: 1, the smallest denormal, infinity; "
         "zero as +0 and -0; NaN components are outside the domain); the dumper and the line->Coq formatter are trusted",
         "get_start_index is tabulated for a position in the middle cell of 1^3, 3^3 and 5^3 cells (it only selects between 0, n-1 and the computed index); exit classification is tabulated for 5 cell layouts "
